@@ -33,6 +33,9 @@ type emitter struct {
 	n    int
 	prop string
 	rng  *rand.Rand
+	// sampling of borrowed streams (C02 re-uses the operator streams of the other properties)
+	every, seen int
+	onlyKinds   map[string]bool
 }
 
 func newEmitter(path, prop string, seed int64) *emitter {
@@ -44,6 +47,15 @@ func newEmitter(path, prop string, seed int64) *emitter {
 }
 
 func (e *emitter) emit(c *Case) {
+	if e.onlyKinds != nil && !e.onlyKinds[c.Kind] {
+		return
+	}
+	if e.every > 1 {
+		e.seen++
+		if e.seen%e.every != 0 {
+			return
+		}
+	}
 	c.Prop = e.prop
 	if c.ID == "" {
 		c.ID = fmt.Sprintf("%s-%06d", e.prop, e.n)
